@@ -223,7 +223,15 @@ Definition segment_ok (bs : list Z) (p : phdr) : bool :=
 
 Definition magic : list Z := [127; 69; 76; 70].   (* 0x7f 'E' 'L' 'F' *)
 
-Definition read (bs : list Z) : option parsed :=
+(* gABI, program header: "loadable process segments must have congruent values for p_vaddr and
+   p_offset, modulo the page size" (p_align) *)
+Definition segment_congruent (p : phdr) : bool :=
+  negb (p_type p =? PT_LOAD) || (p_align p <=? 1) || ((p_offset p - p_vaddr p) mod p_align p =? 0).
+
+(* first stage: ELF header, program headers, section headers, section names and contents *)
+Record core := { c_ehdr : ehdr; c_phdrs : list phdr; c_shdrs : list shdr; c_sections : list section }.
+
+Definition read_core (bs : list Z) : option core :=
   id <-- slice bs 0 16 ;;
   ocheck (match id with
           | m0 :: m1 :: m2 :: m3 :: cls :: dat :: ver :: _ =>
@@ -250,12 +258,19 @@ Definition read (bs : list Z) : option parsed :=
                       n <-- (if sh_type h =? SHT_NULL then Some [] else strtab_get shstr (sh_name h)) ;;
                       d <-- sec_contents bs h ;;
                       Some {| s_hdr := h; s_name := n; s_data := d |}) shdrs ;;
-     symtabs <-- omap (fun ih => read_symtab c64 be bs shdrs (fst ih) (snd ih))
-                      (filter (fun ih => sh_type (snd ih) =? SHT_SYMTAB) (indexed 0 shdrs)) ;;
-     relatabs <-- omap (fun ih => read_relatab c64 be bs shdrs (fst ih) (snd ih))
-                       (filter (fun ih => sh_type (snd ih) =? SHT_RELA) (indexed 0 shdrs)) ;;
-     Some {| f_ehdr := eh; f_phdrs := phdrs; f_sections := secs; f_symtabs := symtabs;
-             f_relatabs := relatabs |})))).
+     Some {| c_ehdr := eh; c_phdrs := phdrs; c_shdrs := shdrs; c_sections := secs |})))).
+
+(* second stage: symbol tables and RELA tables *)
+Definition read (bs : list Z) : option parsed :=
+  c <-- read_core bs ;;
+  let eh := c_ehdr c in let shdrs := c_shdrs c in
+  let c64 := e_class64 eh in let be := e_big eh in
+  symtabs <-- omap (fun ih => read_symtab c64 be bs shdrs (fst ih) (snd ih))
+                   (filter (fun ih => sh_type (snd ih) =? SHT_SYMTAB) (indexed 0 shdrs)) ;;
+  relatabs <-- omap (fun ih => read_relatab c64 be bs shdrs (fst ih) (snd ih))
+                    (filter (fun ih => sh_type (snd ih) =? SHT_RELA) (indexed 0 shdrs)) ;;
+  Some {| f_ehdr := eh; f_phdrs := c_phdrs c; f_sections := c_sections c; f_symtabs := symtabs;
+          f_relatabs := relatabs |}.
 
 (* what a loader maps at virtual address [va] from segment [p] (file-backed part) *)
 Definition in_segment (p : phdr) (va : Z) : Prop := p_vaddr p <= va < p_vaddr p + p_filesz p.
